@@ -283,6 +283,10 @@ func (g *G) isoProps() map[string]interface{} {
 	if g.chance(0.1) {
 		return nil
 	}
+	if g.chance(0.1) {
+		// present but empty (what a host passes that has no properties to give): still the caller's own map
+		return map[string]interface{}{}
+	}
 	m := map[string]interface{}{"mid": "m1"}
 	if g.chance(0.85) {
 		m["cfg"] = map[string]interface{}{"k": "v", "n": g.num(), "sub": map[string]interface{}{"x": g.pick(vocabStrs)}}
